@@ -37,8 +37,7 @@ def normalize_timestamp(self, timestamp):
     num_samples, remainder = divmod(timestamp - self._time_index_alignment, self._sampling_period)
     if HOLE_c:
         num_samples += 1
-    normalized_timestamp = self._time_index_alignment + num_samples * self._sampling_period
-    return normalized_timestamp
+    return self._time_index_alignment + num_samples * self._sampling_period
 """
 
 SK_UPDATE = """
@@ -59,36 +58,35 @@ def update(self, sample):
 
 SK_HAS_VALUE = """
 def has_value(self, sample):
-    return not (sample.value is None or sample.value.isnan())
+    return not sample.value is None and (not sample.value.isnan())
 """
 
 SK_UPDATE_GAPS = """
 def _update_gaps(self, timestamp, newest, record_as_missing):
     found_in_gaps = self.is_missing(timestamp)
-    if not record_as_missing:
+    if record_as_missing:
+        if not found_in_gaps:
+            start_gap = HOLE_missing_s
+            self._gaps.append(Gap(start=start_gap, end=HOLE_missing_e))
+    else:
         if HOLE_jump:
             self._gaps = [Gap(start=HOLE_jump_s, end=HOLE_jump_e)]
             return
         if HOLE_created:
             self._gaps.append(Gap(start=HOLE_created_s, end=HOLE_created_e))
-    if record_as_missing:
-        if not found_in_gaps:
-            start_gap = HOLE_missing_s
-            self._gaps.append(Gap(start=start_gap, end=HOLE_missing_e))
-    elif len(self._gaps) > 0:
-        if found_in_gaps:
+        if len(self._gaps) > 0 and found_in_gaps:
             self._remove_gap(timestamp)
     self._cleanup_gaps()
 """
 
 SK_IS_MISSING = """
 def is_missing(self, timestamp):
-    return any(map(lambda gap: gap.contains(timestamp), self._gaps))
+    return any(map(lambda _lam0: _lam0.contains(timestamp), self._gaps))
 """
 
 SK_CLEANUP = """
 def _cleanup_gaps(self):
-    self._gaps = sorted(self._gaps, key=lambda x: x.start.timestamp())
+    self._gaps = sorted(self._gaps, key=lambda _lam0: _lam0.start.timestamp())
     i = 0
     while i < len(self._gaps):
         w_1 = self._gaps[i]
@@ -99,7 +97,7 @@ def _cleanup_gaps(self):
         if HOLE_outdated:
             del self._gaps[i]
         elif HOLE_rolled:
-            self._gaps[i].start = self._timestamp_oldest
+            w_1.start = self._timestamp_oldest
         elif w_2 and HOLE_subset:
             del self._gaps[i + 1]
         elif w_2 and HOLE_neighbor:
@@ -111,7 +109,7 @@ def _cleanup_gaps(self):
 
 SK_REMOVE = """
 def _remove_gap(self, timestamp):
-    gap_index, gap = next(filter(lambda gap: gap[1].contains(timestamp), enumerate(self._gaps)), (0, None))
+    gap_index, gap = next(filter(lambda _lam0: _lam0[1].contains(timestamp), enumerate(self._gaps)), (0, None))
     if gap is None:
         return
     if HOLE_at_start:
@@ -175,8 +173,9 @@ def generate(repo: pathlib.Path) -> str:  # noqa: C901  (one linear recipe)
     fn = find_method(buf, "OrderedRingBuffer", "_update_gaps", like=[SK_UPDATE_GAPS])
     body = strip_doc(fn)
     try:
-        if_valid, if_missing = _if_tests(body)
-        if_jump, if_created = _if_tests(if_valid.body)
+        # normal form: `if record_as_missing: <missing part> else: <jump>; <created>; <remove>`
+        (if_missing,) = _if_tests(body)
+        if_jump, if_created = _if_tests(if_missing.orelse)[:2]
         jump_gap = if_jump.body[0].value.elts[0]  # type: ignore[attr-defined]
         created_gap = if_created.body[0].value.args[0]  # type: ignore[attr-defined]
         inner = if_missing.body[0]
